@@ -99,7 +99,15 @@ inductive Ev where
   | nonft (b : Nat)
   /-- start of one invocation of an entry point (message handler, chunk sender, teardown) -/
   | start
+  /-- an `open` succeeded and produced this descriptor (bookkeeping, not printed) -/
+  | got (fd : Nat)
   deriving DecidableEq, Repr
+
+/-- an event the property forbids for a message that is not permitted: any libc file-system call
+made by a handler (even a release), any message to the client, any processing of transfer data.
+(Teardown `cleanup` events are the consequence of dropping the connection, not of the message.) -/
+def Ev.isNoisy : Ev → Bool
+  | .fs _ _ => true | .wire _ => true | .x _ _ _ => true | _ => false
 
 def Ev.isFs : Ev → Bool | .fs _ _ => true | _ => false
 def Ev.isWire : Ev → Bool | .wire _ => true | _ => false
